@@ -345,6 +345,8 @@ func (e *Enc) typeAssert(x *ssa.TypeAssert, st *State) {
 		}
 		out.L = append(out.L, okc)
 		e.bind(x, out)
+		// when the assertion holds the payload is a well-typed value of the asserted type
+		e.emitAssert(-1, implies(okc, e.typeFacts(v, st)))
 		return
 	}
 	e.safety(true, "typeassert", x.Pos(), ok, "type assertion holds")
